@@ -253,8 +253,8 @@ namespace vd
     };
 }
 
-#define VD_E(KIND, NAME, CALL)                                                                       \
-    tab.entries.push_back({ KIND, NAME, vd::TN<T>::name(), +[](const vd::Args& a, vd::Out& o) { CALL; } });
+#define VD_E(KIND, NAME, ...)                                                                        \
+    tab.entries.push_back({ KIND, NAME, vd::TN<T>::name(), +[](const vd::Args& a, vd::Out& o) { __VA_ARGS__; } });
 #define VD_EW1(NAME, EXPR) VD_E("ew", NAME, WT::ew1(a, o, [](auto x) { return EXPR; }))
 #define VD_EW2(NAME, EXPR) VD_E("ew", NAME, WT::ew2(a, o, [](auto x, auto y) { return EXPR; }))
 #define VD_EW3(NAME, EXPR) VD_E("ew", NAME, WT::ew3(a, o, [](auto x, auto y, auto z) { return EXPR; }))
